@@ -9,8 +9,10 @@ CONSTANTS
   LabelSet = {"g1", "none", "req"}
   PrioSet = {1}
   MaxAdds = 0
-  AskSet = {"basic", "sub", "topo", "walk"}
+  AskSet = {"basic", "sub", "walk"}
   KeyMode = "any"
+  WalkMech = "bfs"
+  Prefix <- NoPrefix
 INVARIANT TypeOK
 INVARIANT RegistryInverse
 INVARIANT RegistryIsDeclared
@@ -21,5 +23,6 @@ INVARIANT PeelLaws
 INVARIANT BfsLaws
 INVARIANT HelperLaws
 INVARIANT SpecLaws
+INVARIANT CodeFormDeviatesOnlyInClasses
 CONSTRAINT Emit
 CHECK_DEADLOCK FALSE
